@@ -114,7 +114,7 @@ add("c08_bndm_sparse_m64_n64_k0", 16, "BNDM, concrete pattern of 64 symbols (doc
 # ---------------------------------------------------------------------------------------------------------------- C05
 add = prop("C05", "c05",
  "Bounded model checking of the real provided method FMIndexable::backward_search (LF-mapping loop, interval bookkeeping, Complete/Partial/Absent classification) and Interval semantics: for each listed (text length n, pattern length m, alphabet) ALL texts (last symbol '$', optionally a second sentinel at a symbolic position), the suffix array as the unique array satisfying the sortedness predicate, and ALL sentinel-free patterns are covered by one solver query; results are compared with a naive occurrence scan for every pattern suffix.",
- "Compositional: the harness implements FMIndexable with occ/less given by their definitions (counting loops over the BWT computed from the assumed-sorted suffix array) and runs the REAL backward_search on it; exactness of the real Occ/less/bwt tables is C04's subject. Bound: text n<=10 over {A,C} (n<=7 over {A,C,G,T}), 1-2 sentinels, pattern m<=4 incl. patterns longer than the text. " + TRUST + "Not decided: the three one-line delegations in impl FMIndexable for FMIndex<DBWT,DLess,DOcc> together with heap-built components (35 GB, measured), resolution through SampledSuffixArray, FMDIndex.",
+ "Compositional: the harness implements FMIndexable with occ/less given by their definitions (counting loops over the BWT computed from the assumed-sorted suffix array) and runs the REAL backward_search on it; exactness of the real Occ/less/bwt tables is C04's subject. Bound: text n<=10 over {A,C} (n<=7 over {A,C,G,T}), 1-2 sentinels, pattern m<=4 incl. patterns longer than the text (quick); larger instances listed in the thorough tier. " + TRUST + "Not decided: the three one-line delegations in impl FMIndexable for FMIndex<DBWT,DLess,DOcc> together with heap-built components (35 GB, measured), resolution through SampledSuffixArray, FMDIndex.",
  ["bio::data_structures::fmindex::FMIndexable::backward_search (provided method)", "bio::data_structures::fmindex::{Interval, BackwardSearchResult}"],
  "see level_note", "texts longer than 10; the FMIndex glue impl over real Occ tables; sampled suffix arrays", ["suffix array = the (unique) permutation under which adjacent suffixes are strictly increasing in byte order with shorter-is-smaller tie-break (sentinel-free patterns make the order among sentinel suffixes irrelevant)"])
 for h, t, b, tier in [
@@ -122,6 +122,9 @@ for h, t, b, tier in [
  ("c05_bs_n5_m3", 14, "n=5, m=3", "quick"), ("c05_bs_n6_m2", 19, "n=6, m=2", "quick"), ("c05_bs_n6_m3", 20, "n=6, m=3", "quick"),
  ("c05_bs_n5_m2_multi", 13, "n=5, second sentinel at a symbolic position, m=2", "quick"), ("c05_bs_n6_m3_multi", 21, "n=6, two sentinels, m=3", "quick"),
  ("c05_bs_n3_m4", 10, "n=3, m=4 (pattern longer than text)", "quick"),
+ ("c05_bs_n7_m3", 16, "n=7 over {A,C}$, m=3", "quick"), ("c05_bs_n8_m3", 20, "n=8, m=3", "quick"),
+ ("c05_bs_n6_m3_acg", 15, "n=6 over {A,C,G}$, m=3", "quick"), ("c05_bs_n7_m2_acgt_multi", 33, "n=7 over {A,C,G,T}, two sentinels, m=2", "quick"),
+ ("c05_bs_n8_m4_multi", 30, "n=8, two sentinels, m=4", "quick"), ("c05_bs_n10_m4", 51, "n=10, m=4", "quick"),
 ]:
     add(h, t, b, tier=tier, **({"min_covers": 2} if h in ("c05_bs_n4_m1", "c05_bs_n3_m4") else {}))
 
